@@ -419,6 +419,9 @@ func c07(c *core.Check) {
 	r6 := c.Rule("R6", "the guard the path interpreter's indexed reads rest on: hasSetsOrMore(sz, …) returns true only for a list of at least sz numbers made of whole groups of sz (decided by path-condition reachability of its `return true` under three refusing scenarios)", 3)
 	groupGuardRule(c, r6)
 	c07GridAreas(c)
+	c07TestedPositions(c, scope)
+	r10 := c.Rule("R10", "the recursive descent of the CSS tokenizer is bounded: every recursive call of consumeValueList goes through a guard that tests a depth counter against a constant, increments it before the call and decrements it after (stack exhaustion cannot be recovered from)", 5)
+	depthGuardRule(c, r10)
 	r7 := c.Rule("R7", "svg.Parse cannot recurse forever on href references between definitions: inheritElement destroys the reference before following it", 1)
 	if ie := p.Lookup("svg.(*svgContext).inheritElement"); ie == nil {
 		r7.Anchor("svg.(*svgContext).inheritElement")
